@@ -15,8 +15,10 @@ Good(e) == /\ e.valid /\ e.reparsed /\ e.samekind /\ e.fix /\ e.sameans
 Why(e) == IF ~e.valid THEN "output is not valid JSON" ELSE IF ~e.reparsed THEN "output is rejected by Parse"
           ELSE IF ~e.samekind THEN "re-parsed object has another kind" ELSE IF ~e.fix THEN "second output differs (not a fixpoint)"
           ELSE IF ~e.sameans THEN "re-parsed object answers differently"
+          ELSE IF ~(OutInfo(e.out) = ExpInfo(e.doc) /\ KnownOnce(e.out)) THEN "output does not carry the information of the input"
+          \* the two accessor facts are reported only when everything the statement of C06 asks for holds
           ELSE IF e.members # ExpMembers(e.doc) THEN "Members() does not return the foreign members"
-          ELSE IF OutInfo(e.out) = ExpInfo(e.doc) /\ KnownOnce(e.out) THEN "IsPoint / Z" ELSE "output does not carry the information of the input"
+          ELSE "IsPoint / Z"
 Judge == pos > 0 =>
    LET e == Trace[pos] IN
    IF Good(e) THEN TRUE ELSE PrintT(ToString(<<"MISMATCH", pos, Why(e), "n/a", "writer">>))
